@@ -631,7 +631,7 @@ pub fn judge_c14(cx: &DeliveryCtx, out: &mut RunOut) {
                     out.probe(&format!("prov_foreign[{}]", libi::FOREIGN_KINDS[*k]));
                     let ok = match libi::FOREIGN_KINDS[*k] {
                         // these two *are* SignatureErrors (infrastructure kinds): unchanged
-                        "SignatureError::IO" => e.kind == "IO",
+                        k if k.starts_with("SignatureError::IO") => e.kind == "IO",
                         "SignatureError::Internal" => e.kind == "InternalServiceError",
                         _ => e.kind == "InternalServiceError",
                     };
